@@ -343,6 +343,9 @@ func runCaseMore(e *emitter, c []int64) bool {
 	case 3:
 		runConfig(e, c[1:])
 		return true
+	case 13:
+		runCli(e, c[1:])
+		return true
 	case 10, 11, 12, 20, 21, 22:
 		runAsm(e, c[0], c[1:])
 		return true
